@@ -907,6 +907,7 @@ func (c *Ctx) checkMapLookup(s *obSink) (binaryExcluded bool, ok bool) {
 		ok = false
 	}
 	// the selected routine is the looked-up function or the generic routine: check what the lookup function stores / returns
+	var selAt *ssa.BasicBlock // the block of the store / return being judged
 	var selected func(v ssa.Value) (bool, string)
 	selected = func(v ssa.Value) (bool, string) {
 		v = strip(v)
@@ -924,9 +925,14 @@ func (c *Ctx) checkMapLookup(s *obSink) (binaryExcluded bool, ok bool) {
 		if f, isF := v.(*ssa.Function); isF {
 			return f.Name() == "appendMapAnyAny", f.Name()
 		}
-		if ex, isEx := v.(*ssa.Extract); isEx {
-			_, good := ex.Tuple.(*ssa.Lookup)
-			return good, "table entry"
+		if _, isEx := v.(*ssa.Extract); isEx {
+			if isTableEntry(v, nil) {
+				return true, "table entry"
+			}
+			return false, "an entry of a table other than mapAppendFuncs (its registrations are not covered by the lens)"
+		}
+		if lk, isLk := v.(*ssa.Lookup); isLk && selAt != nil {
+			return isTableEntry(lk, selAt), "table entry"
 		}
 		return false, path(v)
 	}
@@ -939,11 +945,13 @@ func (c *Ctx) checkMapLookup(s *obSink) (binaryExcluded bool, ok bool) {
 					continue
 				}
 				nSel++
+				selAt = b
 				good, what := selected(x.Val)
 				s.check(good, "updateMapAppendFunc.store", c.InstrPos(x), "AppendFunc = "+what, "AppendFunc set to "+what+", expected the table entry or appendMapAnyAny")
 			case *ssa.Return:
 				if len(x.Results) == 1 && strings.Contains(x.Results[0].Type().String(), "appendFuncType") {
 					nSel++
+					selAt = b
 					good, what := selected(x.Results[0])
 					s.check(good, "updateMapAppendFunc.store", c.InstrPos(x), "selects "+what, "selects "+what+", expected the table entry or appendMapAnyAny")
 				}
@@ -954,6 +962,34 @@ func (c *Ctx) checkMapLookup(s *obSink) (binaryExcluded bool, ok bool) {
 		s.bad("updateMapAppendFunc.store", c.Pos(fn.Pos()), "the looked-up routine is never installed")
 	}
 	return binaryExcluded, ok
+}
+
+// isTableEntry: v is what a lookup in a registration table found: the value of a (value, ok) lookup, or the value of a plain
+// lookup used where it was tested to be non-nil (a missing entry of a table of function values reads as nil).
+func isTableEntry(v ssa.Value, at *ssa.BasicBlock) bool {
+	// only the two registration tables, whose every entry the lens checks against the routine it names
+	regTable := func(lk *ssa.Lookup) bool {
+		p := path(lk.X)
+		return p == "reflect.mapAppendFuncs" || p == "reflect.listAppendFuncs"
+	}
+	if ex, ok := v.(*ssa.Extract); ok {
+		lk, isLk := ex.Tuple.(*ssa.Lookup)
+		return isLk && regTable(lk)
+	}
+	lk, ok := v.(*ssa.Lookup)
+	if !ok || lk.CommaOk || at == nil || !regTable(lk) {
+		return false
+	}
+	for _, cd := range domConds(at) {
+		bo, ok := cd.V.(*ssa.BinOp)
+		if !ok || !(bo.X == ssa.Value(lk) && isNilConst(bo.Y) || bo.Y == ssa.Value(lk) && isNilConst(bo.X)) {
+			continue
+		}
+		if bo.Op == token.NEQ && cd.Truth || bo.Op == token.EQL && !cd.Truth {
+			return true
+		}
+	}
+	return false
 }
 
 func dedup(ss []string) []string {
@@ -1002,7 +1038,7 @@ func analyseListRoutine(c *Ctx, fn *ssa.Function) *listRoutine {
 	elemRoot := "call:appendListHeader#2"
 	switch {
 	case hdr.Kind == "call" && hdr.Callee != nil && hdr.Callee.Name() == "appendListHeader" &&
-		path(hdr.Call.Call.Args[0]) == elemDesc && hdr.Call.Call.Args[1] == pb && hdr.Call.Call.Args[2] == pp:
+		(path(hdr.Call.Call.Args[0]) == elemDesc || path(hdr.Call.Call.Args[0]) == elemDesc+".WT") && hdr.Call.Call.Args[1] == pb && hdr.Call.Call.Args[2] == pp:
 		for _, r := range referrers(hdr.Call) {
 			if ex, ok := r.(*ssa.Extract); ok {
 				switch ex.Index {
@@ -1490,9 +1526,8 @@ func ruleT5(c *Ctx) []Ob {
 					good, what := false, path(v)
 					if f, isF := v.(*ssa.Function); isF {
 						good, what = f.Name() == "appendListAny", f.Name()
-					} else if ex, isEx := v.(*ssa.Extract); isEx {
-						_, good = ex.Tuple.(*ssa.Lookup)
-						what = "table entry"
+					} else if isTableEntry(v, st.Block()) {
+						good, what = true, "table entry"
 					}
 					s.check(good, "updateListAppendFunc.store", c.InstrPos(st), "AppendFunc = "+what, "AppendFunc set to "+what)
 				}
